@@ -109,6 +109,18 @@ class ConcreteCtx:
     def reachable(self):
         return True
 
+    def Not(self, a):
+        return not bool(a)
+
+    def And(self, *xs):
+        return all(bool(x) for x in xs)
+
+    def Or(self, *xs):
+        return any(bool(x) for x in xs)
+
+    def Implies(self, a, b):
+        return (not bool(a)) or bool(b)
+
     def note(self, key, value=1):
         self.notes[key] = self.notes.get(key, 0) + value
 
